@@ -33,7 +33,7 @@ contract("usim._primitives.notification.Notification.__init__", inv_scope=["Noti
          requires=["forall(Interrupt, lambda i: i.sub is not self)"],     # the object is fresh
          ensures=["len(self._waiting) == 0"], modifies=["Notification._waiting@self"], props=["C03"], inline=True)
 
-contract("usim._primitives.notification.Notification.__subscribe__", inv_scope=["Notification", "Interrupt.parked_or_scheduled"],
+contract("usim._primitives.notification.Notification.__subscribe__", allocates=False, inv_scope=["Notification", "Interrupt.parked_or_scheduled"],
          params={"self": REF("Notification"), "waiter": ANY, "interrupt": REF("Interrupt")},
          requires=["interrupt.sub is None", "not interrupt.scheduled", "not interrupt._revoked", "waiter is not None"],
          requires_direct=["implies(isinstance(self, After), self.trigger_due)"],
@@ -44,7 +44,7 @@ contract("usim._primitives.notification.Notification.__subscribe__", inv_scope=[
          modifies=["Notification._waiting@self", "Interrupt.sub@interrupt", "Interrupt.target@interrupt", "Interrupt.pos@interrupt"],
          props=["C03", "C07", "C09", "C10", "C11", "C02"])
 
-contract("usim._primitives.notification.Notification.__unsubscribe__", inv_scope=["Notification", "Interrupt.parked_or_scheduled"],
+contract("usim._primitives.notification.Notification.__unsubscribe__", allocates=False, inv_scope=["Notification", "Interrupt.parked_or_scheduled"],
          params={"self": REF("Notification"), "waiter": ANY, "interrupt": REF("Interrupt")},
          requires=["interrupt.sub is self", "interrupt.target is waiter"],
          ensures=["interrupt.sub is None",
@@ -116,8 +116,14 @@ contract("usim._primitives.notification.Notification.__await__",
          props=["C03", "C20", "C07"])
 
 # __awake_all__: wake every waiter in subscription order (C02), leave nobody parked
-contract("usim._primitives.notification.Notification.__awake_all__",
+# effect on the interrupts, as a function of the old state (parked here <=> subscribed here and not yet scheduled)
+AWAKE_ALL_EFFECT = [
+    "forall(Interrupt, lambda i: i.scheduled == (old(i.scheduled) or old(i.sub) is self))",
+    "forall(Interrupt, lambda i: i.due == ite(old(i.sub) is self and not old(i.scheduled), loop.time, old(i.due)))",
+    'unchanged("Interrupt.target")']
+contract("usim._primitives.notification.Notification.__awake_all__", allocates=False,
          inv_scope=["Notification", "Interrupt.parked_or_scheduled"],
+         assume_all=["Interrupt.parked_or_scheduled"],
          params={"self": REF("Notification")}, returns=LIST(SUB),
          ensures=["result == old(self._waiting)", "len(self._waiting) == 0",
                   # pending gets exactly the old waiters, in order, after what was pending
@@ -125,24 +131,18 @@ contract("usim._primitives.notification.Notification.__awake_all__",
                   "forall(int, lambda k: implies(0 <= k and k < len(old(loop._pending)), loop._pending[k] == old(loop._pending)[k]))",
                   "forall(int, lambda k: implies(0 <= k and k < len(old(self._waiting)), "
                   "       loop._pending[len(old(loop._pending)) + k] == Activation(old(self._waiting)[k][0], old(self._waiting)[k][1])))",
-                  "forall(old(self._waiting), lambda w: w[1].scheduled and w[1].due == loop.time)",
-                  "forall(Interrupt, lambda i: implies(not exists(old(self._waiting), lambda w: w[1] is i), "
-                  "       i.scheduled == old(i.scheduled) and i.target is old(i.target) and i.due == old(i.due)))",
-                  "loop.time == old(loop.time)"],
+                  "loop.time == old(loop.time)"] + AWAKE_ALL_EFFECT,
          loop_invariants={"for#1": [
              "len(self._waiting) == 0",
              "len(loop._pending) == len(old(loop._pending)) + _i",
              "forall(int, lambda k: implies(0 <= k and k < len(old(loop._pending)), loop._pending[k] == old(loop._pending)[k]))",
              "forall(int, lambda k: implies(0 <= k and k < _i, "
              "       loop._pending[len(old(loop._pending)) + k] == Activation(old(self._waiting)[k][0], old(self._waiting)[k][1])))",
-             "forall(int, lambda k: implies(0 <= k and k < _i, old(self._waiting)[k][1].scheduled and old(self._waiting)[k][1].due == loop.time))",
-             "forall(int, lambda k: implies(_i <= k and k < len(old(self._waiting)), not old(self._waiting)[k][1].scheduled))",
              "loop.time == old(loop.time)", "awoken == old(self._waiting)",
              # frame of the iterations so far
-             'unchanged("WaitQueue.qlen", "WaitQueue.qitems")', 'unchanged_except("Loop._pending", loop)',
-             "forall(Interrupt, lambda i: implies(not exists(awoken, lambda w: w[1] is i), "
-             "       i.scheduled == old(i.scheduled) and i.target is old(i.target) and i.due == old(i.due)))",
-             "forall(awoken, lambda w: w[1].target is w[0])",
+             'unchanged("WaitQueue.qlen", "WaitQueue.qitems", "Interrupt.target", "Interrupt.pos", "Interrupt.sub")', 'unchanged_except("Loop._pending", loop)',
+             "forall(Interrupt, lambda i: i.scheduled == (old(i.scheduled) or (old(i.sub) is self and old(i.pos) < _i)))",
+             "forall(Interrupt, lambda i: i.due == ite(old(i.sub) is self and not old(i.scheduled) and old(i.pos) < _i, loop.time, old(i.due)))",
          ]},
          modifies=["Notification._waiting@self", "Loop._pending@loop", "Interrupt.scheduled", "Interrupt.target", "Interrupt.due"],
          props=["C02", "C08", "C10", "C11", "C13"])
